@@ -24,7 +24,7 @@ PROPS = {
     "C13": ("totp", "exploration", {"quick": (6000, 60, 60), "thorough": (200000, 1200, 90)}),
     "C14": ("totp", "exploration", {"quick": (6000, 60, 60), "thorough": (250000, 1500, 90)}),
     "C15": ("totp", "exploration", {"quick": (6000, 60, 60), "thorough": (200000, 1200, 90)}),
-    "C16": ("htfile", "exploration", {"quick": (6000, 75, 60), "thorough": (200000, 1500, 90)}),
+    "C16": ("htfile", "exploration", {"quick": (40000, 75, 60), "thorough": (800000, 1500, 90)}),
     "C18": ("credstore", "exploration", {"quick": (4000, 60, 60), "thorough": (120000, 1200, 90)}),
     "C19": ("lazyinit", "exploration", {"quick": (5000, 80, 60), "thorough": (150000, 1800, 120)}),
 }
@@ -312,6 +312,9 @@ def cmd_selftest(args):
 
 
 def main():
+    import logging
+
+    logging.disable(logging.CRITICAL)  # the library logs through the root logger; keep check output clean
     ap = argparse.ArgumentParser(prog="check")
     ap.add_argument("property", nargs="?")
     ap.add_argument("--tier", default=os.environ.get("VERIF_TIER", "quick"), choices=["quick", "thorough"])
